@@ -84,7 +84,8 @@ type IndexScenario struct{}
 func (IndexScenario) Name() string { return "index" }
 
 var idxKeys = []string{"a", "ab", "abc", "b", "ba", "a:b", "", "", "B", "a b", "aÿ", "aÿÿ", "bÿ"}
-var idxIDs = []string{"1", "2", "33", "4.4", "a", "ab"}
+// (p1 and ep begin with characters of the store prefix "pre.")
+var idxIDs = []string{"1", "2", "33", "4.4", "a", "ab", "p1", "ep"}
 
 func genIdxQuery(r *rand.Rand) IdxQuery {
 	q := IdxQuery{Index: pick(r, "k", "k", "n")}
